@@ -555,3 +555,17 @@ LEVEL_NOTE = (LEVEL_NOTE + " Model/TzConvert.v is no longer tied to /repo by pin
 # ---- model = code theorems for the arithmetic entry points (appended) ----
 TRUSTED = [t for t in TRUSTED] + ["model_is_code_datetime_add / _datetime_subtract: DateTime.add and subtract as a whole (naive, calendar-unit and fixed-unit branches) = dt_add / dt_subtract of Model/CalendarArith.v; model_is_code_datetime_dunder_add / _radd: DateTime.__add__ translated with its stack inspection (traceback.extract_stack(limit=2)[0].name == 'astimezone'; recognised shape, any other use of traceback fails closed) as the explicit boolean called_from_astimezone (True only from a frame named astimezone -> native addition; the + operator and __radd__ pass False -> _add_timedelta_). NOT translated: the plain-timedelta route add(seconds=delta.total_seconds()) (float seconds into add_duration: Model/CalendarArith.v dt_add_fsec / Model/FloatRoutes.v stay hand-written + pinned), so `dt + timedelta` inside Timezone.convert is still read as the native addition (dt a native datetime); the class of a datetime object is still not part of the object model"]
 LEVEL_NOTE = LEVEL_NOTE + " " + "model_is_code_datetime_add / _datetime_subtract: DateTime.add and subtract as a whole (naive, calendar-unit and fixed-unit branches) = dt_add / dt_subtract of Model/CalendarArith.v; model_is_code_datetime_dunder_add / _radd: DateTime.__add__ translated with its stack inspection (traceback.extract_stack(limit=2)[0].name == 'astimezone'; recognised shape, any other use of traceback fails closed) as the explicit boolean called_from_astimezone (True only from a frame named astimezone -> native addition; the + operator and __radd__ pass False -> _add_timedelta_). NOT translated: the plain-timedelta route add(seconds=delta.total_seconds()) (float seconds into add_duration: Model/CalendarArith.v dt_add_fsec / Model/FloatRoutes.v stay hand-written + pinned), so `dt + timedelta` inside Timezone.convert is still read as the native addition (dt a native datetime); the class of a datetime object is still not part of the object model" + "."
+
+
+# the float path of helpers.add_duration is translated from /repo on every run and the hand model is PROVED equal to it
+TRUSTED = list(TRUSTED) + [
+    "tools/vlib/pyfloat2gallina.py + tools/vlib/gens/g54_float_routes.py (Python ast -> Gallina for helpers.add_duration under a float `seconds`, path-duplicating mode: every path "
+    "statically typed, CPython's int/float conversion points, tests on integer constants decided at translation time; reading rules in the generator's docstring: dt is a datetime = "
+    "the record ndt, dt.replace / dt + timedelta = ndt_replace_ymd / ndt_add_td, timedelta(days=, hours=, minutes=, seconds=, microseconds=0) = the spec td_of_mixed of CPython's "
+    "delta_new on int-or-float arguments, copysign(1, x) = the sign bit; fails closed otherwise): they replace the former trust in the hand transcription of the carry chain and its "
+    "`pynum` dispatch layer in Model/FloatRoutes.v, now PROVED equal to the translation (model_is_code_add_duration_float, all datetimes and doubles, closed under the global context)",
+]
+LEVEL_NOTE = LEVEL_NOTE + (" Model = code (float path): coq/Gen/FloatRoutesGen.v is translated from helpers.add_duration under a float `seconds` on every run and Proofs/FloatRoutesGenFacts.v "
+                           "proves it equal to Model/FloatRoutes.add_duration_float for every datetime and double (model_is_code_add_duration_float), so a semantic edit of the carry chain "
+                           "breaks a proof (self-tested by mutation). Not translated yet: DateTime._add_timedelta_ / _subtract_timedelta's plain branch and DateTime.add(seconds=<float>) itself "
+                           "(add_seconds_float stays the hand model around add_duration_float), td_of_mixed (the hand spec of CPython's delta_new on mixed arguments).")
